@@ -1,4 +1,5 @@
 import KoordVerif.Model.C15
+import KoordVerif.Model.C15Race
 import KoordVerif.Generated.C15
 /-
 Tie lemmas for C15: facts about /repo's CURRENT source (regenerated on every run by
@@ -13,6 +14,10 @@ harness/extract/facts_c15.go) that the model and the theorems rely on.
   * reserved names (model: 0/1/2), parent defaulting, feature-gate defaults, lock before state;
   * informer glue: NewQuotaInformer registers the three handlers unfiltered, OnQuotaUpdate unbinds the old
     namespaces before it binds the new ones, what the handlers write, lock before state (model: Model/C15Inf.lean).
+  * round 4, critical sections: ValidDeleteQuota is ONE section from its check across the pod List to the removal
+    (model: Model/C15Race.lean `LockShape.atomic`; Props §18 race_atomic_WF / race_atomic_linearizable hold for this shape,
+    race_split_counterexample shows what the split shape admits); every entry point and handler takes the write lock once
+    and releases it by defer only.
 -/
 namespace KoordVerif.C15
 open KoordVerif.Generated
@@ -143,5 +148,30 @@ theorem tie_handlers_lock_first :
 theorem tie_event_object_conversion :
     C15.toQuotaCases = ["*v1alpha1.ElasticQuota", "*unstructured.Unstructured", "cache.DeletedFinalStateUnknown"] ∧
     C15.toQuotaTombstoneHolds = ["*v1alpha1.ElasticQuota", "*unstructured.Unstructured"] := by decide
+
+/-! ### critical sections (round 4; Model/C15Race.lean) -/
+
+/-- ValidDeleteQuota: write lock + deferred unlock FIRST, then the recorded maps (the 'exists and has no children' check),
+    the pod List, the recorded maps again (the removal) — no other lock operation, no call of another quotaTopology
+    method that could carry a section of its own.  This is the shape `atomic` of the race model: the check and the removal
+    are one critical section, a concurrent request waits until the delete is through. -/
+theorem tie_delete_one_section :
+    C15.delSections = ["Lock", "defer Unlock", "state", "list", "state"] ∧
+    shapeOf C15.delSections = some LockShape.atomic := by decide
+
+/-- the other threads of the race model are atomic actions under the same lock: each entry point and each informer
+    handler takes the WRITE lock exactly once and releases it by a deferred Unlock only (no early unlock, no read lock). -/
+theorem tie_single_write_section :
+    C15.addLockOps = ["Lock", "defer Unlock"] ∧ C15.updLockOps = ["Lock", "defer Unlock"] ∧
+    C15.delLockOps = ["Lock", "defer Unlock"] ∧ C15.onAddLockOps = ["Lock", "defer Unlock"] ∧
+    C15.onUpdLockOps = ["Lock", "defer Unlock"] ∧ C15.onDelLockOps = ["Lock", "defer Unlock"] := by decide
+
+/-- quotaFieldsCopy — what the unchanged-fields shortcut of ValidUpdateQuota compares (model `sameFields`): the labels
+    parent / is-parent / tree-id, the namespaces annotation, and a plain deep copy of the WHOLE spec (nothing filtered:
+    a zero-valued entry is an entry, Props `zero_entry_edit_is_a_change`). -/
+theorem tie_unchanged_fields_copy :
+    C15.fieldsCopyStmts = 1 ∧ C15.fieldsCopySpec = "*$p0.Spec.DeepCopy()" ∧
+    C15.fieldsCopyLabels = ["extension.LabelQuotaParent", "extension.LabelQuotaIsParent", "extension.LabelQuotaTreeID"] ∧
+    C15.fieldsCopyAnnotations = ["extension.AnnotationQuotaNamespaces"] := by decide
 
 end KoordVerif.C15
